@@ -392,7 +392,7 @@ func schemaOps(p *an.Prog) []bucketOp {
 }
 
 // ruleSchema: key agreement + no raw cross-bucket copy on the given bucket labels.
-func ruleSchema(c *report.Ctx, buckets []string) {
+func ruleSchema(c *report.Ctx, buckets []string, floorKey, floorVal int) {
 	p := c.P
 	ops := schemaOps(p)
 	want := map[string]bool{}
@@ -430,7 +430,7 @@ func ruleSchema(c *report.Ctx, buckets []string) {
 		return strings.HasPrefix(k, "opaque:") || k == "entry-key" || strings.HasPrefix(k, "field:") || strings.HasPrefix(k, "entry-param:") || strings.HasSuffix(k, "@"+"") || strings.HasPrefix(k, "append@")
 	}
 
-	c.Rule("key-agreement", "for every bucket the width class of each Get/Delete key is one the bucket's Put sites use (the writers define the schema; a reader with another key layout can never hit)", 8)
+	c.Rule("key-agreement", "for every bucket the width class of each Get/Delete key is one the bucket's Put sites use (the writers define the schema; a reader with another key layout can never hit)", floorKey)
 	seenBuckets := map[string]bool{}
 	nUndecided := 0
 	for _, op := range ops {
@@ -483,7 +483,7 @@ func ruleSchema(c *report.Ctx, buckets []string) {
 		}
 	}
 
-	c.Rule("no-raw-cross-bucket-copy", "a value read from bucket B' is never stored verbatim into another bucket B (each bucket has its own value layout, txmgr/type.go); it must pass through a conversion function", 10)
+	c.Rule("no-raw-cross-bucket-copy", "a value read from bucket B' is never stored verbatim into another bucket B (each bucket has its own value layout, txmgr/type.go); it must pass through a conversion function", floorVal)
 	for _, op := range ops {
 		if !want[op.Bucket] || op.Method != "Put" {
 			continue
